@@ -104,6 +104,7 @@ Fixpoint p_op (fuel : nat) (ts : toks) : option (op * toks) :=
     | [] => None
     | t :: r =>
       if is t "T" then match r with x :: r1 => Some (OText x, r1) | _ => None end
+      else if is t "W" then match r with x :: r1 => Some (ONonce x, r1) | _ => None end
       else if is t "R" then match p_script r with Some (s, r1) => Some (ORender s, r1) | None => None end
       else if is t "I" then match p_until k p_script r with Some (l, r1) => Some (OScriptItems l, r1) | None => None end
       else if is t "C" then match p_until k (p_form k) r with Some (l, r1) => Some (OCSSItems l, r1) | None => None end
